@@ -9,9 +9,19 @@ import (
 	"gosymx/sym"
 )
 
+// Float model. A symbolic float64 (always finite) is described by an exact
+// real "ideal" term T and a relative error bound Rho: float = T*(1+d) with
+// |d| <= Rho < 1 (Rho = 0: the float is exactly T). Products, quotients,
+// scalings, negation and abs compose (T, Rho) without introducing solver
+// variables; sign and zero-ness of the float are those of T. Only sums,
+// differences and value comparisons materialise the float as a fresh real r
+// with the linear-after-sign-split bracket |r - T| <= Rho*|T|. No intermediate
+// result is assumed subnormal (stated assumption).
+
 var two53 = sym.Pow2(53)
 var negTwo53 = new(big.Rat).Neg(sym.Pow2(53))
-var ulpHalf = new(big.Rat).Inv(sym.Pow2(53)) // 2^-53: relative half-ulp bound
+var ulpHalf = new(big.Rat).Inv(sym.Pow2(53)) // u = 2^-53
+var ratOne = sym.R(1)
 
 func ratOfFloat(f float64) *big.Rat {
 	r := new(big.Rat)
@@ -21,23 +31,76 @@ func ratOfFloat(f float64) *big.Rat {
 	return r
 }
 
-func maxAbs(l *sym.Lin) *big.Rat {
-	if l.Lo == nil || l.Hi == nil {
-		return nil
-	}
-	a := new(big.Rat).Abs(l.Lo)
-	b := new(big.Rat).Abs(l.Hi)
-	if b.Cmp(a) > 0 {
-		return b
-	}
-	return a
-}
-
 func within53(l *sym.Lin) bool {
 	return l.Lo != nil && l.Hi != nil && l.Lo.Cmp(negTwo53) >= 0 && l.Hi.Cmp(two53) <= 0
 }
 
-// fl converts a float Value to its real-sorted Lin (finite values only).
+// compose: (1+a)(1+b)(1+u)-1
+func rhoMul(a, b *big.Rat, round bool) *big.Rat {
+	r := new(big.Rat).Mul(new(big.Rat).Add(ratOne, a), new(big.Rat).Add(ratOne, b))
+	if round {
+		r.Mul(r, new(big.Rat).Add(ratOne, ulpHalf))
+	}
+	return r.Sub(r, ratOne)
+}
+
+// (1+a)(1+u)/(1-b) - 1
+func rhoDiv(a, b *big.Rat) *big.Rat {
+	r := new(big.Rat).Mul(new(big.Rat).Add(ratOne, a), new(big.Rat).Add(ratOne, ulpHalf))
+	r.Quo(r, new(big.Rat).Sub(ratOne, b))
+	return r.Sub(r, ratOne)
+}
+
+func (m *Machine) exactF(l *sym.Lin) *FSym {
+	l = m.ctx.ToReal(l)
+	return &FSym{T: l, Rho: new(big.Rat), l: l, Exact: true}
+}
+
+// mkF builds a float from an ideal term and a relative error bound.
+func (m *Machine) mkF(t *sym.Lin, rho *big.Rat) Value {
+	t = m.ctx.ToReal(t)
+	if t.IsConst() && rho.Sign() == 0 {
+		f, _ := t.C.Float64()
+		return f
+	}
+	if t.IsConst() && t.C.Sign() == 0 {
+		return float64(0)
+	}
+	if rho.Sign() == 0 {
+		return m.exactF(t)
+	}
+	return &FSym{T: t, Rho: rho}
+}
+
+// roundOnce: the float nearest to the exact real t.
+func (m *Machine) roundOnce(t *sym.Lin) Value {
+	t = m.ctx.ToReal(t)
+	if t.IsConst() {
+		f, _ := t.C.Float64()
+		return f
+	}
+	if t.IntegerValued() && within53(t) {
+		return m.exactF(t)
+	}
+	return &FSym{T: t, Rho: ulpHalf}
+}
+
+// tOf returns the ideal term and error bound of a finite float value.
+func (m *Machine) tOf(v Value) (*sym.Lin, *big.Rat) {
+	switch x := v.(type) {
+	case float64:
+		r := ratOfFloat(x)
+		if r == nil {
+			m.unsupported("non-finite float in symbolic arithmetic")
+		}
+		return m.ctx.Const(sym.SReal, r), new(big.Rat)
+	case *FSym:
+		return x.T, x.Rho
+	}
+	panic(fmt.Sprintf("tOf: %T", v))
+}
+
+// fl returns the value term of a finite float, materialising it if needed.
 func (m *Machine) fl(v Value) *sym.Lin {
 	switch x := v.(type) {
 	case float64:
@@ -47,106 +110,82 @@ func (m *Machine) fl(v Value) *sym.Lin {
 		}
 		return m.ctx.Const(sym.SReal, r)
 	case *FSym:
-		return x.L
+		return m.val(x)
 	}
 	panic(fmt.Sprintf("fl: %T", v))
 }
 
-// fval folds constants back to concrete floats when exact.
+// fval: a float that is exactly the real term l (used by stubs).
 func (m *Machine) fval(l *sym.Lin, exact bool) Value {
-	if l.IsConst() {
-		f, ex := l.C.Float64()
-		if ex {
-			return f
-		}
-		// constant but not representable: it must be rounded; do so exactly
-		return f
-	}
-	return &FSym{L: m.ctx.ToReal(l), Exact: exact}
+	return m.mkF(l, new(big.Rat))
 }
 
-// relBracket adds the relative-error bracket of one IEEE rounding of the real
-// value l into r: |r - l| <= 2^-53 |l| (no result is assumed subnormal), which
-// is linear once the sign of l is split, plus the redundant sign facts that
-// keep products compared with zero linear.
-func (m *Machine) relBracket(l, r *sym.Lin) {
-	c := m.ctx
-	lo := c.Scale(l, oneMinusU)
-	hi := c.Scale(l, onePlusU)
-	z := c.Const(sym.SReal, new(big.Rat))
-	pos := c.AndN([]*sym.Bool{c.Le(z, l), c.Le(lo, r), c.Le(r, hi)})
-	neg := c.AndN([]*sym.Bool{c.Le(l, z), c.Le(hi, r), c.Le(r, lo)})
-	c.Side = append(c.Side, c.Or(pos, neg),
-		c.Or(c.Not(c.Lt(z, l)), c.Lt(z, r)),
-		c.Or(c.Not(c.Lt(l, z)), c.Lt(r, z)),
-		c.Or(c.Not(c.Eq0(l)), c.Eq0(r)))
-}
-
-var oneMinusU = new(big.Rat).Sub(sym.R(1), ulpHalf)
-var onePlusU = new(big.Rat).Add(sym.R(1), ulpHalf)
-
-func widen(lo, hi *big.Rat) (*big.Rat, *big.Rat) {
-	w := func(x *big.Rat, up bool) *big.Rat {
-		if (x.Sign() >= 0) == up {
-			return new(big.Rat).Mul(x, onePlusU)
+func widen(lo, hi, rho *big.Rat) (*big.Rat, *big.Rat) {
+	up := new(big.Rat).Add(ratOne, rho)
+	dn := new(big.Rat).Sub(ratOne, rho)
+	w := func(x *big.Rat, toward bool) *big.Rat {
+		if (x.Sign() >= 0) == toward {
+			return new(big.Rat).Mul(x, up)
 		}
-		return new(big.Rat).Mul(x, oneMinusU)
+		return new(big.Rat).Mul(x, dn)
 	}
 	return w(lo, false), w(hi, true)
 }
 
-// roundF models one IEEE rounding of the real value l.
-func (m *Machine) roundF(l *sym.Lin) Value {
-	l = m.ctx.ToReal(l)
-	if l.IsConst() {
-		f, _ := l.C.Float64()
-		return f
+// val materialises the value term of f.
+func (m *Machine) val(f *FSym) *sym.Lin {
+	if f.l != nil {
+		return f.l
 	}
-	if l.IntegerValued() && within53(l) {
-		return &FSym{L: l, Exact: true}
+	if f.Rho.Sign() == 0 {
+		f.l = f.T
+		return f.l
 	}
+	t := f.T
 	var lo, hi *big.Rat
-	if l.Lo != nil && l.Hi != nil {
-		lo, hi = widen(l.Lo, l.Hi)
+	if t.Lo != nil && t.Hi != nil {
+		lo, hi = widen(t.Lo, t.Hi, f.Rho)
 	}
 	r := m.FreshReal("fr", lo, hi)
-	m.relBracket(l, r)
+	c := m.ctx
+	a := c.Scale(t, new(big.Rat).Sub(ratOne, f.Rho))
+	b := c.Scale(t, new(big.Rat).Add(ratOne, f.Rho))
+	z := c.Const(sym.SReal, new(big.Rat))
+	pos := c.AndN([]*sym.Bool{c.Le(z, t), c.Le(a, r), c.Le(r, b)})
+	neg := c.AndN([]*sym.Bool{c.Le(t, z), c.Le(b, r), c.Le(r, a)})
+	c.Side = append(c.Side, c.Or(pos, neg),
+		c.Or(c.Not(c.Lt(z, t)), c.Lt(z, r)),
+		c.Or(c.Not(c.Lt(t, z)), c.Lt(r, z)),
+		c.Or(c.Not(c.Eq0(t)), c.Eq0(r)))
+	if f.intConv != nil {
+		x := f.intConv
+		one, mone := c.ConstI(1), c.ConstI(-1)
+		rone, rmone := c.Const(sym.SReal, sym.R(1)), c.Const(sym.SReal, sym.R(-1))
+		inExact := c.And(c.Le(c.Const(sym.SInt, negTwo53), x), c.Le(x, c.Const(sym.SInt, two53)))
+		c.Side = append(c.Side,
+			c.Or(c.Not(c.Le(one, x)), c.Le(rone, r)),
+			c.Or(c.Not(c.Le(x, mone)), c.Le(r, rmone)),
+			c.Or(c.Not(inExact), c.Eq(r, c.ToReal(x))))
+	}
 	m.res.Approx = true
 	m.nRound++
-	return &FSym{L: r, Exact: false}
+	m.res.Funcs["<float materialised in "+m.where()+">"]++
+	f.l = r
+	return r
 }
 
 func (m *Machine) intToFloat(x *sym.Lin) Value {
 	if within53(x) {
-		return &FSym{L: m.ctx.ToReal(x), Exact: true}
+		return m.exactF(x)
 	}
 	if x.Lo == nil || x.Hi == nil {
 		m.unsupported("int->float of unbounded term")
 	}
-	c := m.ctx
-	xr := c.ToReal(x)
-	lo, hi := widen(x.Lo, x.Hi)
-	r := m.FreshReal("fi", lo, hi)
-	m.relBracket(xr, r)
-	one := c.ConstI(1)
-	mone := c.ConstI(-1)
-	rone := c.Const(sym.SReal, sym.R(1))
-	rmone := c.Const(sym.SReal, sym.R(-1))
-	inExact := c.And(c.Le(c.Const(sym.SInt, negTwo53), x), c.Le(x, c.Const(sym.SInt, two53)))
-	c.Side = append(c.Side,
-		// rounding is monotone and -1, 1 are representable
-		c.Or(c.Not(c.Le(one, x)), c.Le(rone, r)),
-		c.Or(c.Not(c.Le(x, mone)), c.Le(r, rmone)),
-		// exact within 2^53
-		c.Or(c.Not(inExact), c.Eq(r, xr)),
-	)
-	m.res.Approx = true
-	m.nRound++
-	return &FSym{L: r, Exact: false}
+	return &FSym{T: m.ctx.ToReal(x), Rho: ulpHalf, intConv: x}
 }
 
 func (m *Machine) floatToInt(f *FSym, k intKind) Value {
-	l := m.ctx.Round(sym.ATrunc, f.L)
+	l := m.ctx.Round(sym.ATrunc, m.val(f))
 	if l.Lo != nil && l.Hi != nil && l.Lo.Cmp(k.min()) >= 0 && l.Hi.Cmp(k.max()) <= 0 {
 		return m.intVal(l, k)
 	}
@@ -214,59 +253,98 @@ func (m *Machine) floatBinop(op token.Token, x, y Value) Value {
 		return m.floatSpecial(op, sp, false, x)
 	}
 	c := m.ctx
-	xl, yl := m.fl(x), m.fl(y)
+	zero := c.Const(sym.SReal, new(big.Rat))
+	tx, rx := m.tOf(x)
+	ty, ry := m.tOf(y)
+	// comparisons against the constant zero only need the sign of T
+	if (xok && xc == 0) || (yok && yc == 0) {
+		sg := tx
+		cmp := op
+		if !yok || yc != 0 {
+			sg = ty
+			switch op {
+			case token.LSS:
+				cmp = token.GTR
+			case token.LEQ:
+				cmp = token.GEQ
+			case token.GTR:
+				cmp = token.LSS
+			case token.GEQ:
+				cmp = token.LEQ
+			}
+		}
+		switch cmp {
+		case token.EQL:
+			return m.boolVal(c.Eq0(sg))
+		case token.NEQ:
+			return m.boolVal(c.Not(c.Eq0(sg)))
+		case token.LSS:
+			return m.boolVal(c.Lt(sg, zero))
+		case token.LEQ:
+			return m.boolVal(c.Le(sg, zero))
+		case token.GTR:
+			return m.boolVal(c.Lt(zero, sg))
+		case token.GEQ:
+			return m.boolVal(c.Le(zero, sg))
+		}
+	}
 	switch op {
 	case token.ADD, token.SUB:
 		if xok && xc == 0 {
 			if op == token.ADD {
 				return y
 			}
-			return &FSym{L: c.Neg(yl), Exact: y.(*FSym).Exact}
+			return m.fneg(y.(*FSym))
 		}
 		if yok && yc == 0 {
 			return x
 		}
-		var l *sym.Lin
+		xl, yl := m.fl(x), m.fl(y)
 		if op == token.ADD {
-			l = c.Add(xl, yl)
-		} else {
-			l = c.Sub(xl, yl)
+			return m.roundOnce(c.Add(xl, yl))
 		}
-		return m.roundF(l)
+		return m.roundOnce(c.Sub(xl, yl))
 	case token.MUL:
-		if xok || yok {
-			cf, s := xc, y
-			if yok {
-				cf, s = yc, x
-			}
-			if cf == 0 {
-				return float64(0) // sign of zero ignored
-			}
-			l := c.Scale(m.fl(s), ratOfFloat(cf))
-			if isPow2Float(cf) {
-				return &FSym{L: l, Exact: s.(*FSym).Exact}
-			}
-			return m.roundF(l)
+		if (xok && xc == 0) || (yok && yc == 0) {
+			return float64(0) // sign of zero ignored
 		}
-		return m.roundF(c.Mul(xl, yl))
+		t := c.Mul(tx, ty)
+		pow2 := (xok && isPow2Float(xc)) || (yok && isPow2Float(yc))
+		if rx.Sign() == 0 && ry.Sign() == 0 {
+			if pow2 {
+				return m.mkF(t, new(big.Rat))
+			}
+			return m.roundOnce(t)
+		}
+		return m.mkF(t, rhoMul(rx, ry, !pow2))
 	case token.QUO:
 		if yok {
 			if yc == 0 {
-				return m.divByZero(xl)
+				return m.divByZero(tx)
 			}
-			l := c.Scale(xl, new(big.Rat).Inv(ratOfFloat(yc)))
+			t := c.Scale(tx, new(big.Rat).Inv(ratOfFloat(yc)))
 			if isPow2Float(yc) {
-				return &FSym{L: l, Exact: x.(*FSym).Exact}
+				return m.mkF(t, rx)
 			}
-			return m.roundF(l)
+			if rx.Sign() == 0 {
+				return m.roundOnce(t)
+			}
+			return m.mkF(t, rhoMul(rx, new(big.Rat), true))
 		}
-		if m.Branch(c.Eq0(yl)) {
-			return m.divByZero(xl)
+		if m.Branch(c.Eq0(ty)) {
+			return m.divByZero(tx)
 		}
-		if xl.IsConst() && xl.C.Sign() == 0 {
+		if tx.IsConst() && tx.C.Sign() == 0 {
 			return float64(0)
 		}
-		return m.roundF(c.RDiv(xl, yl))
+		t := c.RDiv(tx, ty)
+		if rx.Sign() == 0 && ry.Sign() == 0 {
+			return m.roundOnce(t)
+		}
+		return m.mkF(t, rhoDiv(rx, ry))
+	}
+	xl, yl := m.fl(x), m.fl(y)
+	switch op {
 	case token.EQL:
 		return m.boolVal(c.Eq(xl, yl))
 	case token.NEQ:
@@ -282,6 +360,24 @@ func (m *Machine) floatBinop(op token.Token, x, y Value) Value {
 	}
 	m.unsupported("float binop " + op.String())
 	return nil
+}
+
+func (m *Machine) fneg(f *FSym) Value {
+	c := m.ctx
+	r := &FSym{T: c.Neg(f.T), Rho: f.Rho, Exact: f.Exact}
+	if f.l != nil {
+		r.l = c.Neg(f.l)
+	}
+	return r
+}
+
+func (m *Machine) fabs(f *FSym) Value {
+	c := m.ctx
+	r := &FSym{T: c.Abs(f.T), Rho: f.Rho, Exact: f.Exact}
+	if f.l != nil {
+		r.l = c.Abs(f.l)
+	}
+	return r
 }
 
 func (m *Machine) divByZero(num *sym.Lin) Value {
@@ -315,7 +411,6 @@ func (m *Machine) floatSpecial(op token.Token, sp float64, spLeft bool, other Va
 	case token.NEQ:
 		return true
 	case token.LSS, token.LEQ:
-		// sp < other ?   (-Inf < x true; +Inf < x false)
 		if spLeft {
 			return !pos
 		}
@@ -338,7 +433,7 @@ func (m *Machine) floatSpecial(op token.Token, sp float64, spLeft bool, other Va
 		}
 	}
 	// inf * x, inf / x: sign of x matters
-	ol := m.fl(other)
+	ol, _ := m.tOf(other)
 	c := m.ctx
 	z := c.Const(sym.SReal, new(big.Rat))
 	if m.Branch(c.Lt(z, ol)) {
@@ -366,5 +461,5 @@ func (m *Machine) fIte(cond *sym.Bool, a, b Value) Value {
 		}
 		return b
 	}
-	return m.fval(m.ctx.Ite(cond, m.fl(a), m.fl(b)), false)
+	return m.mkF(m.ctx.Ite(cond, m.fl(a), m.fl(b)), new(big.Rat))
 }
